@@ -446,3 +446,32 @@ func H_C08_history() {
 	}
 	verifReach("C08.history.end")
 }
+
+// two concurrent writers on one FileSink (every lock operation is a possible context switch): both events are acknowledged
+// and each is in the sink's files exactly once and whole, in one of the two orders
+func H_C08_concurrent_writers() {
+	fsInit()
+	s := &FileSink{Path: fsDir, FileName: "audit.log", Format: "custom", Mode: 0600}
+	s.MaxBytes = nondetInt()
+	s.TimestampOnlyOnRotate = nondetBool()
+	if nondetBool() {
+		// the file is already open and holds an earlier event
+		s.Process(context.Background(), &Event{Type: "t", Formatted: map[string][]byte{"custom": []byte("<first>\n")}})
+	}
+	before := fsHistRead()
+	a, b := "<writer-a>\n", "<wr-b>\n"
+	var ea, eb error
+	verifInterleave(true)
+	verifGo(func() {
+		_, ea = s.Process(context.Background(), &Event{Type: "t", Formatted: map[string][]byte{"custom": []byte(a)}})
+	})
+	verifGo(func() {
+		_, eb = s.Process(context.Background(), &Event{Type: "t", Formatted: map[string][]byte{"custom": []byte(b)}})
+	})
+	verifJoin()
+	verifInterleave(false)
+	verifAssert(ea == nil && eb == nil, "C08.concurrent.both-acknowledged")
+	all := fsHistRead()
+	verifAssert(all == before+a+b || all == before+b+a, "C08.concurrent.each-event-once-and-whole")
+	verifReach("C08.concurrent.end")
+}
